@@ -701,7 +701,29 @@ func (d *dsGen) plugin() *dsPlugin {
 		}
 		p.Steps = append(p.Steps, dsKeyed[*dsStep]{id, st})
 	}
+	// step KEYS need not be the step IDs (schema.NewSchema takes a map): an alias for a step, or a
+	// second generation of a step under another key with the same ID and another input
+	if d.p(0.35) {
+		base := p.Steps[d.g.R.Intn(len(p.Steps))]
+		if d.p(0.5) {
+			p.Steps = append(p.Steps, dsKeyed[*dsStep]{base.Key + "@alias", base.V})
+		} else {
+			other := &dsStep{ID: base.V.ID, Input: d.scope(false), Disp: d.disp(0.5),
+				Outputs: []dsKeyed[*dsOutput]{{"success", &dsOutput{Schema: d.scope(false)}}}}
+			p.Steps = append(p.Steps, dsKeyed[*dsStep]{base.Key + "@v1", other})
+		}
+	}
 	return p
+}
+
+// aliased: some step is registered under a key other than its ID (a callable schema cannot express that)
+func (p *dsPlugin) aliased() bool {
+	for _, st := range p.Steps {
+		if st.Key != st.V.ID {
+			return true
+		}
+	}
+	return false
 }
 
 // ---------------------------------------------------------------------------------------------
